@@ -94,6 +94,10 @@ CHECKS = {
  "C22": ("E3-pool", "exploration",
          "Per model window the observed verifier calls never exceed the budget (failed verifications count), a push arriving with the window exhausted performs zero verifications, a push inside the budget is never refused for budget; histories straddle the window boundary (Advance in {W-1, W, W+1, 2W}).",
          "DESIGN.md §4 C22", POOL_NOTE, "stateful model-based testing under a virtual clock"),
+
+ "C23": ("E5-publish", "fault_enumeration",
+         "The whole schedule space of the publish routine is enumerated: initial state (no output / output directory / output is a file) x an action (ok, fail, crash-before, crash-after) for each of its up to three rename calls x a process death after k unlinkat calls for every k a returning schedule performs, each in a child process (real abort); plus failure/abort injected between the stages of the real generate_all_circuit_binaries. Afterwards the directory tree must satisfy: output absent, byte-identical previous set or byte-identical new set; previous gone => new live or both intact elsewhere; Ok <=> new live; failed generation => output untouched, no staging directory.",
+         "DESIGN.md §4 C23", "Faults at rename/unlink granularity on one local filesystem (a rename either happens or fails); power-loss reordering out of scope. Injection through the repo's own injectable-rename entry (cfg-gated re-export) and by defining unlinkat in the harness binary.", "exhaustive fault/crash schedule enumeration in child processes with a state predicate oracle"),
 }
 
 NOT_YET = "not claimed yet: check not implemented in this round (design in DESIGN.md §4); will be claimed once its check is built and validated"
@@ -149,6 +153,9 @@ def main():
             {"name": "E3-pool", "path": "harness/src/props/poolprops.rs, harness/src/util/vclock.rs",
              "serves_properties": [p for p in ["C19", "C20", "C21", "C22"] if p in CHECKS],
              "kind_free_text": "pool state machine: Vec<Op> histories interpreted against ProofPool and a model, virtual clock by clock_gettime interposition, verifier-call counter and state dump through cfg-gated hooks, ddmin shrinking"},
+            {"name": "E5-publish", "path": "harness/src/props/publish.rs",
+             "serves_properties": [p for p in ["C23"] if p in CHECKS],
+             "kind_free_text": "filesystem fault/crash enumerator: child processes, injectable rename, unlinkat interposition, stage-fault hook"},
             {"name": "E1-leaf", "path": "harness/src/engine/e1.rs, harness/src/engine/hints.rs, harness/src/leaf.rs, harness/src/props/leafdrv.rs",
              "serves_properties": [p for p in ["C01", "C02", "C03", "C04"] if p in CHECKS],
              "kind_free_text": "witness fuzzer: generator loop with replaced hint generators + native gate-constraint evaluation of the real leaf circuit, real prover/verifier as ground truth"},
